@@ -567,6 +567,18 @@ impl<F: Read + Seek> CompoundFile<F> {
             );
         }
 
+        // Every FAT sector is a sector of the file, so a DIFAT with more
+        // entries than the file has sectors lists some sector more than once;
+        // don't load the same sector over and over.
+        if difat.len() > num_sectors as usize {
+            invalid_data!(
+                "Malformed DIFAT (DIFAT has {} entries, but file has only {} \
+                 sectors)",
+                difat.len(),
+                num_sectors
+            );
+        }
+
         // Read in FAT.
         let mut fat = Vec::<u32>::new();
         for &sector_index in difat.iter() {
